@@ -1,38 +1,35 @@
 (* Props/C17.v — pinned statements for property C17 (sorting and set functions meet
    their mathematical contracts).  Statements closed by [exact lemma], non-vacuity
-   examples, and [Print Assumptions]. *)
+   examples, and [Print Assumptions].
+
+   Reading guide.  [keyf : A -> outcome K E] is the key function, [cmp] the evaluator's
+   CompareValue on keys, [eqv] its EqualsValue.  The contracts are stated for inputs on
+   which these compute, without failing, a pure key [kf x], a total preorder [c] on
+   keys and a boolean equality [e]:
+     keys_pure keyf kf arr   := forall a in arr, keyf a = Ok (kf a)
+     cmp_pure cmp kf c arr   := forall a b in arr, cmp (kf a) (kf b) = Ok (c (kf a) (kf b))
+     eqv_pure eqv kf e arr   := forall a b in arr, eqv (kf a) (kf b) = Ok (e (kf a) (kf b))
+   (restricted to the elements of the input: the real comparison fails on other values). *)
 From Coq Require Import List Arith Permutation Sorted.
-From RJ Require Import Base.Outcome Model.Sort Model.SetOps Proofs.Sort_proofs.
+From RJ Require Import Base.Outcome Model.Sort Model.SetOps Proofs.Sort_proofs Proofs.SetOps_proofs.
 Import ListNotations.
 
-(* ---- std.sort: for a key function and a comparison that, on the elements of the
-   input, compute a total preorder [c] on the keys [kf x] without failing ---- *)
+(* ================= std.sort ================= *)
 
 Theorem C17_sort_total : forall (A K E : Type) (keyf : A -> outcome K E) cmp (kf : A -> K) c arr,
   total_preorder c -> keys_pure A K E keyf kf arr -> cmp_pure A K E cmp kf c arr ->
   exists r, std_sort keyf cmp arr = Ok r.
-Proof.
-  intros A K E keyf cmp kf c arr TP HK HC.
-  destruct (std_sort_correct A K E keyf cmp kf c TP arr HK HC) as [r [Hr _]]. eauto.
-Qed.
+Proof. intros A K E keyf cmp kf c arr. exact (std_sort_total A K E keyf cmp kf c arr). Qed.
 
 Theorem C17_sort_perm : forall (A K E : Type) (keyf : A -> outcome K E) cmp (kf : A -> K) c arr r,
   total_preorder c -> keys_pure A K E keyf kf arr -> cmp_pure A K E cmp kf c arr ->
   std_sort keyf cmp arr = Ok r -> Permutation r arr.
-Proof.
-  intros A K E keyf cmp kf c arr r TP HK HC H.
-  destruct (std_sort_correct A K E keyf cmp kf c TP arr HK HC) as [r' [Hr [HP _]]].
-  rewrite Hr in H; inversion H; subst; exact HP.
-Qed.
+Proof. intros A K E keyf cmp kf c arr r. exact (std_sort_perm A K E keyf cmp kf c arr r). Qed.
 
 Theorem C17_sort_sorted : forall (A K E : Type) (keyf : A -> outcome K E) cmp (kf : A -> K) c arr r,
   total_preorder c -> keys_pure A K E keyf kf arr -> cmp_pure A K E cmp kf c arr ->
   std_sort keyf cmp arr = Ok r -> StronglySorted (fun x y => c (kf x) (kf y) <> Gt) r.
-Proof.
-  intros A K E keyf cmp kf c arr r TP HK HC H.
-  destruct (std_sort_correct A K E keyf cmp kf c TP arr HK HC) as [r' [Hr [_ [HS _]]]].
-  rewrite Hr in H; inversion H; subst; exact HS.
-Qed.
+Proof. intros A K E keyf cmp kf c arr r. exact (std_sort_sorted A K E keyf cmp kf c arr r). Qed.
 
 (* stability: for every key k, the elements whose key equals k appear in the output in
    the order they have in the input *)
@@ -40,11 +37,7 @@ Theorem C17_sort_stable : forall (A K E : Type) (keyf : A -> outcome K E) cmp (k
   total_preorder c -> keys_pure A K E keyf kf arr -> cmp_pure A K E cmp kf c arr ->
   std_sort keyf cmp arr = Ok r ->
   forall k, filter (fun x => same_key c k (kf x)) r = filter (fun x => same_key c k (kf x)) arr.
-Proof.
-  intros A K E keyf cmp kf c arr r TP HK HC H.
-  destruct (std_sort_correct A K E keyf cmp kf c TP arr HK HC) as [r' [Hr [_ [_ HT]]]].
-  rewrite Hr in H; inversion H; subst; exact HT.
-Qed.
+Proof. intros A K E keyf cmp kf c arr r. exact (std_sort_stable A K E keyf cmp kf c arr r). Qed.
 
 (* the index form of DESIGN Appendix A: the permutation applied to the cached keys *)
 Theorem C17_sort_idx_spec : forall (K E : Type) (cmp : K -> K -> outcome comparison E) c (ks : list K) (d : K),
@@ -84,38 +77,148 @@ Theorem C17_sort_keyf_error_propagates : forall (A K E : Type) (keyf : A -> outc
   std_sort keyf cmp (pre ++ x :: post) = Err e.
 Proof. exact @std_sort_keyf_error. Qed.
 
-(* ---- non-vacuity on the wire instance: 70 keys with duplicates (merge and quick
-   paths), a numeric comparison that is a total preorder, and the error cases ---- *)
-Definition nv_c (a b : wkey) : comparison := N.compare (snd (fst a)) (snd (fst b)).
-Definition nv_keys : list wkey :=
-  map (fun i => (2, N.of_nat (Nat.modulo (i * 7) 5), 0)%N) (seq 0 70).
+(* ================= std.uniq, std.set ================= *)
 
-Lemma nv_total_preorder : total_preorder nv_c.
-Proof.
-  constructor; unfold nv_c; intros.
-  - apply N.compare_refl.
-  - apply N.compare_antisym.
-  - rewrite N.compare_le_iff in *. eapply N.le_trans; eassumption.
-Qed.
+(* item i is kept iff i = 0 or its key differs (==) from the key of item i-1 of the input *)
+Theorem C17_uniq_spec : forall (A K E : Type) (keyf : A -> outcome K E) eqv (kf : A -> K) e arr d,
+  keys_pure A K E keyf kf arr -> eqv_pure A K E eqv kf e arr ->
+  exists mask, length mask = length arr /\
+    (forall i, i < length arr ->
+       nth i mask false = match i with 0 => true | S i' => negb (e (kf (nth i' arr d)) (kf (nth i arr d))) end) /\
+    std_uniq keyf eqv arr = Ok (pick mask arr).
+Proof. intros A K E keyf eqv kf e arr d. exact (uniq_spec A K E keyf eqv kf e arr d). Qed.
 
-Example C17_nonvacuous :
-  total_preorder nv_c /\
-  (forall a b, In a nv_keys -> In b nv_keys -> wcmp a b = Ok (nv_c a b)) /\
-  (exists p, sort_idx wcmp nv_keys = Ok p /\ length p = 70 /\
+(* when == is symmetric and transitive on keys, no two neighbours of the result are equal *)
+Theorem C17_uniq_no_adjacent_duplicates : forall (A K E : Type) (keyf : A -> outcome K E) eqv (kf : A -> K) e arr r,
+  (forall a b, e a b = e b a) -> (forall a b c', e a b = true -> e b c' = true -> e a c' = true) ->
+  keys_pure A K E keyf kf arr -> eqv_pure A K E eqv kf e arr -> std_uniq keyf eqv arr = Ok r ->
+  Sorted (fun x y => e (kf x) (kf y) = false) r /\ incl r arr.
+Proof. intros A K E keyf eqv kf e arr r Hs Ht. exact (uniq_no_adjacent_duplicates A K E keyf eqv kf e Hs Ht arr r). Qed.
+
+(* std.set(arr, keyF) is std.uniq(std.sort(arr, keyF), keyF): same value, same error,
+   whatever keyF, the comparison and == do (no hypothesis) *)
+Theorem C17_set_is_uniq_sort : forall (A K E : Type) (keyf : A -> outcome K E) cmp eqv arr,
+  std_set keyf cmp eqv arr = obind (std_sort keyf cmp arr) (fun s => std_uniq keyf eqv s).
+Proof. exact set_is_uniq_sort. Qed.
+
+(* ================= set functions on sets (strictly key-sorted arrays) ================= *)
+
+Theorem C17_union_spec : forall (A K E : Type) (keyf : A -> outcome K E) cmp (kf : A -> K) c a b,
+  total_preorder c -> walk_pure A K E keyf cmp kf c a b -> is_set A K kf c a -> is_set A K kf c b ->
+  exists r, std_set_union keyf cmp a b = Ok r /\ is_set A K kf c r /\
+    (forall z, In z r <-> In z a \/ (In z b /\ forall x, In x a -> ~ keq A K kf c x z)).
+Proof. intros A K E keyf cmp kf c a b TP. exact (union_spec A K E keyf cmp kf c TP a b). Qed.
+
+Theorem C17_inter_spec : forall (A K E : Type) (keyf : A -> outcome K E) cmp (kf : A -> K) c a b,
+  total_preorder c -> walk_pure A K E keyf cmp kf c a b -> is_set A K kf c a -> is_set A K kf c b ->
+  exists r, std_set_inter keyf cmp a b = Ok r /\ is_set A K kf c r /\
+    (forall z, In z r <-> In z a /\ exists y, In y b /\ keq A K kf c z y).
+Proof. intros A K E keyf cmp kf c a b TP. exact (inter_spec A K E keyf cmp kf c TP a b). Qed.
+
+Theorem C17_diff_spec : forall (A K E : Type) (keyf : A -> outcome K E) cmp (kf : A -> K) c a b,
+  total_preorder c -> walk_pure A K E keyf cmp kf c a b -> is_set A K kf c a -> is_set A K kf c b ->
+  exists r, std_set_diff keyf cmp a b = Ok r /\ is_set A K kf c r /\
+    (forall z, In z r <-> In z a /\ forall y, In y b -> ~ keq A K kf c z y).
+Proof. intros A K E keyf cmp kf c a b TP. exact (diff_spec A K E keyf cmp kf c TP a b). Qed.
+
+(* binary search: on a key-sorted array (duplicates allowed) the answer is "some item has
+   the key of x" *)
+Theorem C17_member_spec : forall (A K E : Type) (keyf : A -> outcome K E) cmp (kf : A -> K) c x arr,
+  total_preorder c -> keys_pure A K E keyf kf arr ->
+  (forall y, In y arr -> cmp (kf x) (kf y) = Ok (c (kf x) (kf y))) ->
+  StronglySorted (kle A K kf c) arr -> keyf x = Ok (kf x) ->
+  std_set_member keyf cmp x arr = Ok (existsb (fun y => same_key c (kf x) (kf y)) arr).
+Proof. intros A K E keyf cmp kf c x arr TP HK HC HS HX. exact (member_spec A K E keyf cmp kf c TP x arr x HK HC HS HX). Qed.
+
+(* ================= std.minArray / std.maxArray ================= *)
+
+Theorem C17_minArray_first_min : forall (A K E : Type) (keyf : A -> outcome K E) cmp (kf : A -> K) c arr d,
+  total_preorder c -> keys_pure A K E keyf kf arr -> cmp_pure A K E cmp kf c arr -> arr <> [] ->
+  exists m, std_min_array_idx keyf cmp arr = Ok (Some m) /\ m < length arr /\
+    (forall j, j < length arr -> c (kf (nth m arr d)) (kf (nth j arr d)) <> Gt) /\
+    (forall j, j < m -> c (kf (nth m arr d)) (kf (nth j arr d)) = Lt).
+Proof. intros A K E keyf cmp kf c arr d TP. exact (minArray_first_min A K E keyf cmp kf c TP arr d). Qed.
+
+Theorem C17_maxArray_first_max : forall (A K E : Type) (keyf : A -> outcome K E) cmp (kf : A -> K) c arr d,
+  total_preorder c -> keys_pure A K E keyf kf arr -> cmp_pure A K E cmp kf c arr -> arr <> [] ->
+  exists m, std_max_array_idx keyf cmp arr = Ok (Some m) /\ m < length arr /\
+    (forall j, j < length arr -> c (kf (nth j arr d)) (kf (nth m arr d)) <> Gt) /\
+    (forall j, j < m -> c (kf (nth j arr d)) (kf (nth m arr d)) = Lt).
+Proof. intros A K E keyf cmp kf c arr d TP. exact (maxArray_first_max A K E keyf cmp kf c TP arr d). Qed.
+
+(* ================= non-vacuity (wire instance, number keys) ================= *)
+
+(* 70 keys with 5 distinct values: merge and quick paths; the hypotheses of the sort
+   theorems hold and the answer is the stable one; the error cases are errors *)
+Definition nv_ranks : list N := map (fun i => N.of_nat (Nat.modulo (i * 7) 5)) (seq 0 70).
+
+Example C17_nonvacuous_sort :
+  total_preorder num_c /\
+  keys_pure nat wkey werr (wkeyf (num_script nv_ranks)) (num_kf nv_ranks) (seq 0 70) /\
+  cmp_pure nat wkey werr wcmp (num_kf nv_ranks) num_c (seq 0 70) /\
+  (exists p, run_sort (num_script nv_ranks) = Ok p /\ length p = 70 /\
              firstn 5 p = [0; 5; 10; 15; 20] /\ nth 14 p 0 = 3) /\
   run_sort [Ok (2, 1, 0)%N; Ok (3, 0, 0)%N; Ok (2, 0, 0)%N] = Err (EDiff 3 2) /\
   run_sort [Ok (1, 1, 0)%N; Ok (1, 0, 0)%N] = Err (ESame 1) /\
   run_sort [Ok (2, 1, 0)%N; Err (EUser 9); Ok (2, 0, 0)%N] = Err (EUser 9) /\
   run_sort [Err (EUser 9)] = Ok [0].
 Proof.
-  split; [exact nv_total_preorder|]. split.
-  - assert (H : forallb (fun a => forallb (fun b =>
-        match wcmp a b with Ok o => match o, nv_c a b with Eq, Eq | Lt, Lt | Gt, Gt => true | _, _ => false end | _ => false end)
-        nv_keys) nv_keys = true) by (vm_compute; reflexivity).
-    intros a b Ha Hb. rewrite forallb_forall in H. specialize (H a Ha). rewrite forallb_forall in H. specialize (H b Hb).
-    destruct (wcmp a b) as [o| | |]; try discriminate. destruct o, (nv_c a b); try discriminate; reflexivity.
-  - split; [eexists; split; [vm_compute; reflexivity|vm_compute; repeat split]|].
-    vm_compute. repeat split.
+  split; [exact num_c_total_preorder|]. split.
+  { apply num_keys_pure. intros i Hi. apply in_seq in Hi. exact (proj2 Hi). }
+  split; [apply num_cmp_pure|].
+  split; [eexists; split; [vm_compute; reflexivity|vm_compute; repeat split]|].
+  vm_compute. repeat split.
+Qed.
+
+(* uniq / set *)
+Example C17_nonvacuous_uniq :
+  let ranks := [1; 1; 2; 1; 1; 3; 3]%N in
+  keys_pure nat wkey werr (wkeyf (num_script ranks)) (num_kf ranks) (seq 0 7) /\
+  eqv_pure nat wkey werr weqv (num_kf ranks) num_e (seq 0 7) /\
+  (forall a b, num_e a b = num_e b a) /\
+  run_uniq (num_script ranks) = Ok [0; 2; 3; 5] /\
+  run_set (num_script ranks) = Ok [0; 2; 5] /\
+  run_uniq_sort (num_script ranks) = Ok [0; 2; 5].
+Proof.
+  cbv zeta. split.
+  { apply num_keys_pure. intros i Hi. apply in_seq in Hi. exact (proj2 Hi). }
+  split; [apply num_eqv_pure|]. split; [exact num_e_sym|].
+  vm_compute. repeat split.
+Qed.
+
+(* two sets {1,3,5,7} (items 0..3) and {2,3,4,7,9} (items 4..8) *)
+Example C17_nonvacuous_sets :
+  let ranks := [1; 3; 5; 7; 2; 3; 4; 7; 9]%N in
+  let a := [0; 1; 2; 3] in let b := [4; 5; 6; 7; 8] in
+  walk_pure nat wkey werr (wkeyf (num_script ranks)) wcmp (num_kf ranks) num_c a b /\
+  is_set nat wkey (num_kf ranks) num_c a /\ is_set nat wkey (num_kf ranks) num_c b /\
+  run_union 4 (num_script ranks) = Ok [0; 4; 1; 6; 2; 3; 8] /\
+  run_inter 4 (num_script ranks) = Ok [1; 3] /\
+  run_diff 4 (num_script ranks) = Ok [0; 2].
+Proof.
+  cbv zeta. split.
+  { split; [|intros x y _ _; apply wcmp_numkey].
+    apply num_keys_pure. intros i Hi. cbn in Hi. cbn [length]. repeat (destruct Hi as [<-|Hi]; [repeat constructor|]). destruct Hi. }
+  split; [repeat constructor|]. split; [repeat constructor|].
+  vm_compute. repeat split.
+Qed.
+
+(* membership in a key-sorted array; first minimum / maximum *)
+Example C17_nonvacuous_member_minmax :
+  let ranks := [5; 1; 3; 5; 5; 7]%N in       (* x = item 0, arr = items 1..5 *)
+  let arr := [1; 2; 3; 4; 5] in
+  keys_pure nat wkey werr (wkeyf (num_script ranks)) (num_kf ranks) arr /\
+  StronglySorted (kle nat wkey (num_kf ranks) num_c) arr /\
+  run_member (num_script ranks) = Ok true /\
+  run_member (num_script [4; 1; 3; 5; 5; 7]%N) = Ok false /\
+  run_min (num_script [3; 1; 2; 1; 3]%N) = Ok (Some 1) /\
+  run_max (num_script [3; 1; 2; 1; 3]%N) = Ok (Some 0) /\
+  run_min [] = Ok None.
+Proof.
+  cbv zeta. split.
+  { apply num_keys_pure. intros i Hi. cbn in Hi. cbn [length]. repeat (destruct Hi as [<-|Hi]; [repeat constructor|]). destruct Hi. }
+  split; [repeat constructor; discriminate|].
+  vm_compute. repeat split.
 Qed.
 
 Print Assumptions C17_sort_total.
@@ -127,4 +230,16 @@ Print Assumptions C17_sort_rearranges.
 Print Assumptions C17_sort_fuel_sufficient.
 Print Assumptions C17_sort_error_propagates.
 Print Assumptions C17_sort_keyf_error_propagates.
-Print Assumptions C17_nonvacuous.
+Print Assumptions C17_uniq_spec.
+Print Assumptions C17_uniq_no_adjacent_duplicates.
+Print Assumptions C17_set_is_uniq_sort.
+Print Assumptions C17_union_spec.
+Print Assumptions C17_inter_spec.
+Print Assumptions C17_diff_spec.
+Print Assumptions C17_member_spec.
+Print Assumptions C17_minArray_first_min.
+Print Assumptions C17_maxArray_first_max.
+Print Assumptions C17_nonvacuous_sort.
+Print Assumptions C17_nonvacuous_uniq.
+Print Assumptions C17_nonvacuous_sets.
+Print Assumptions C17_nonvacuous_member_minmax.
